@@ -1,6 +1,7 @@
 package optable
 
 import (
+	"math/big"
 	"reflect"
 
 	bgvpoly "github.com/tuneinsight/lattigo/v6/circuits/bgv/polynomial"
@@ -295,8 +296,58 @@ func polynomialEvaluatorTarget() *Target {
 		}
 		return pb
 	}
+	// polynomials with holes (nil coefficients) at irregular positions, of a degree that is split by
+	// Paterson-Stockmeyer: Factorize then takes the "remainder has no coefficient at n-j" branches
+	holed := func(e *Env, basis bignum.Basis, deg int, holes ...int) bignum.Polynomial {
+		g := NewGen("holed", basis, deg)
+		c := make([]*bignum.Complex, deg+1)
+		for i := range c {
+			if e.Scheme == "bgv" {
+				c[i] = &bignum.Complex{new(big.Float).SetUint64(g.U64()%96 + 1), new(big.Float)}
+			} else {
+				c[i] = &bignum.Complex{bigF(float64(g.U64()%2000)/1000 - 1.0005), bigF(0)}
+			}
+		}
+		for _, h := range holes {
+			c[h] = nil
+		}
+		var interval interface{}
+		if basis == bignum.Chebyshev {
+			interval = [2]float64{-1, 1}
+		}
+		return bignum.NewPolynomial(basis, c, interval)
+	}
+	deepKinds := func() []Kind {
+		mk := func(name string, p func(e *Env) interface{}) Kind {
+			return Kind{Name: name, Class: "ct/deep", Names: []string{"ct", "p", "targetScale"}, Make: func(e *Env, g *Gen) []interface{} {
+				if e.MaxLevel() < 5 {
+					return []interface{}{g.Ct(e, 1, e.MaxLevel()), mkPoly(e), target(e)} // shallow environments: the small polynomial
+				}
+				return []interface{}{g.Ct(e, 1, e.MaxLevel()), p(e), target(e)}
+			}}
+		}
+		basis := func(e *Env) bignum.Basis {
+			if e.Scheme == "bgv" {
+				return bignum.Monomial
+			}
+			return bignum.Chebyshev
+		}
+		return []Kind{
+			mk("ct1,deg9/hole7", func(e *Env) interface{} { return holed(e, basis(e), 9, 7) }),
+			mk("ct1,deg13/holes5,10", func(e *Env) interface{} { return holed(e, basis(e), 13, 5, 10) }),
+			mk("ct1,deg17/holes15,6,1", func(e *Env) interface{} { return holed(e, basis(e), 17, 15, 6, 1) }),
+			mk("ct1,monomial-deg11/holes7,9", func(e *Env) interface{} { return holed(e, bignum.Monomial, 11, 7, 9) }),
+			mk("ct1,vector[deg9/hole7,deg9/hole6]", func(e *Env) interface{} {
+				pv, err := polynomial.NewPolynomialVector([]bignum.Polynomial{holed(e, basis(e), 9, 7), holed(e, basis(e), 9, 6)}, map[int][]int{0: {0, 1, 2}, 1: {3, 4}})
+				if err != nil {
+					panic(err)
+				}
+				return pv
+			}),
+		}
+	}()
 	t := &Target{
-		Name: "polynomial.Evaluator", Envs: []string{"ckks", "bgv"},
+		Name: "polynomial.Evaluator", Envs: []string{"ckks", "bgv", "ckks-deep", "bgv-deep"},
 		Type: reflect.TypeOf(&polynomial.Evaluator[uint64]{}),
 		New: func(e *Env) interface{} {
 			if e.Scheme == "bgv" {
@@ -314,9 +365,9 @@ func polynomialEvaluatorTarget() *Target {
 	}
 	t.Rows = []Row{
 		{Method: "Evaluate", Doc: "evaluates a polynomial on the input Ciphertext in ceil(log2(deg+1)) levels; returns a new ciphertext",
-			Kinds: []Kind{{Name: "ct1,poly3", Class: "ct", Names: []string{"ct", "p", "targetScale"}, Make: func(e *Env, g *Gen) []interface{} {
+			Kinds: append([]Kind{{Name: "ct1,poly3", Class: "ct", Names: []string{"ct", "p", "targetScale"}, Make: func(e *Env, g *Gen) []interface{} {
 				return []interface{}{g.Ct(e, 1, e.MaxLevel()), mkPoly(e), target(e)}
-			}}},
+			}}}, deepKinds...),
 			Call: func(rcv interface{}, in []interface{}, o interface{}) (interface{}, error) {
 				r, err := rcv.(polyEval).Evaluate(asCt(in[0]), in[1], in[2].(rlwe.Scale))
 				if r == nil {
@@ -324,9 +375,20 @@ func polynomialEvaluatorTarget() *Target {
 				}
 				return r, err
 			}},
-		{Method: "EvaluateFromPowerBasis", Func: true, Doc: "(scheme wrapper) same as Evaluate except that the encrypted input is a PowerBasis holding pre-computed powers of X",
+		{Method: "EvaluateFromPowerBasis", Func: true, InPlace: []int{0},
+			Doc: "(scheme wrapper) same as Evaluate except that the encrypted input is a PowerBasis holding pre-computed powers of X; the PowerBasis is a cache: the powers that are missing are generated and stored in it (PowerBasis.GenPower), so it is exempt from the inputs-intact oracle",
 			Kinds: []Kind{{Name: "pb,poly3", Class: "pb", Names: []string{"pb", "p", "targetScale"}, Make: func(e *Env, g *Gen) []interface{} {
 				return []interface{}{mkPB(e, g), mkPoly(e), target(e)}
+			}}, {Name: "pb,deg9/hole7", Class: "pb/deep", Names: []string{"pb", "p", "targetScale"}, Make: func(e *Env, g *Gen) []interface{} {
+				if e.MaxLevel() < 5 {
+					return []interface{}{mkPB(e, g), mkPoly(e), target(e)}
+				}
+				b := bignum.Chebyshev
+				if e.Scheme == "bgv" {
+					b = bignum.Monomial
+				}
+				pb := polynomial.NewPowerBasis(g.Ct(e, 1, e.MaxLevel()), b)
+				return []interface{}{pb, holed(e, b, 9, 7), target(e)}
 			}}},
 			Call: func(rcv interface{}, in []interface{}, o interface{}) (interface{}, error) {
 				r, err := rcv.(polyEval).EvaluateFromPowerBasis(in[0].(polynomial.PowerBasis), in[1], in[2].(rlwe.Scale))
